@@ -553,10 +553,12 @@ def canon_gids(n):
 
 
 def mk_image(rng, kind, gid, far, slot):
+    err = (rng.uniform(-3, 3), rng.uniform(-3, 3), rng.uniform(-0.03, 0.03), 1.0 + rng.uniform(-2e-4, 2e-4))
+    if rng.random() < 0.12:
+        # a WCS error within 1e-5 of nothing: pure scale about the reference pixel (still has to be corrected)
+        err = (0.0, 0.0, 0.0, 1.0 + rng.choice([-8e-6, 6e-6, 8e-6]))
     return dict(kind=kind, gid=gid, far=far, slot=slot, keep=rng.choice([0.3, 0.6, 0.8]),
-                custom_ids=rng.random() < 0.25, cseed=rng.randrange(1000),
-                err=(rng.uniform(-3, 3), rng.uniform(-3, 3), rng.uniform(-0.03, 0.03),
-                     1.0 + rng.uniform(-2e-4, 2e-4)))
+                custom_ids=rng.random() < 0.25, cseed=rng.randrange(1000), err=err)
 
 
 def fix_group_fields(images):
